@@ -1,7 +1,7 @@
 (* C05 End-of-input protocol: `$`, termination in Init, error elsewhere, fused stream. *)
 From LexVerif Require Import Base CharClass RangeMap Regex Spec SpecExec LexSpec Nfa Dfa NfaToDfa NfaSem Codegen
      Runtime ScanIface RulesetSem Driver SpecDef ClassAlgProofs RuntimeProofs RuntimeLemmas ScanOkProofs
-     RulesetSemProofs LexSpecProofs LexSpecFacts EndToEnd EndToEndModel Instance Harness.
+     RulesetSemProofs LexSpecProofs LexSpecFacts SpecInvariants EndToEnd EndToEndModel Instance Harness.
 From LexVerif.Gen Require Import GenTables GenConsts.
 
 (* fused stream, for EVERY program and action (no hypothesis at all): None is only returned with
